@@ -237,6 +237,12 @@ func c19Scalars(thorough bool) []*big.Int {
 		add(k)
 	}
 
+	// scalars at which an incomplete addition inside a multiplication degenerates through the endomorphism (a
+	// fallback taken there is a scalar-dependent schedule), see alpha.EndoScalars
+	for _, k := range alpha.EndoScalars(15, 1) {
+		add(k)
+	}
+
 	if thorough {
 		// all 3-bit deviations from 0 and from n-1 whose bits lie in the lowest 24 or the highest 24 positions
 		var pos []uint
